@@ -18,6 +18,15 @@ Session steps (JSON-able):
     ["mixed", [k, ...], cols, rows]  the terminal is resized while input is pending: ONE batch that holds the
                            marker "window resize" (at the position given in the list) among keys / mouse events
     ["pipe", "data"]       data is written to the write end returned by MainLoop.watch_pipe
+    ["late-pipe", "data", seconds]  the same, but only `seconds` after the step was fed: nothing at all arrives in
+                           between (the loop just keeps running, e.g. past the screen's complete_wait)
+    ["split", [k, ...], [k, ...], cut]  the terminal's bytes for the events of BOTH lists arrive in two reads: the
+                           first read ends `cut` bytes into the (multi-byte escape) sequence of the first event of the
+                           second list, the rest follows at once (long before the screen's complete_wait is over).
+                           What arrived is exactly these events: the first list as one batch (if not empty), the
+                           second list as the next batch - nothing else, however long the loop runs afterwards
+    a key "esc" (a lone ESC byte after which nothing follows) is complete only once the screen's complete_wait is
+    over: it arrives as a batch of its own then
 
 Test application (fixture, same text in bounded/C12.py):
     input filter      drops every "z", passes everything else through unchanged
@@ -70,7 +79,15 @@ def expected_events(case):
         cnt[kind] += 1
         return bool(inj) and inj["kind"] == kind and inj["idx"] == i
 
+    steps = []
     for step in case["session"]:
+        if step[0] == "split":
+            steps.extend(["keys", list(b)] for b in (step[1], step[2]) if b)
+        elif step[0] == "late-pipe":
+            steps.append(["pipe", step[1]])
+        else:
+            steps.append(step)
+    for step in steps:
         pending_alarms = 0
         if step[0] in ("keys", "resize", "mixed"):
             batch = list(step[1]) if step[0] in ("keys", "mixed") else ["window resize"]
